@@ -3,20 +3,21 @@
 # runs the check(s) named in its meta.json ("regress" field, default: its property) at the quick tier and
 # reverts. Prints one line per change. Dev-time tool: modifies /repo's working tree while it runs.
 cd "$(dirname "$0")/.."
+REPO="${VERIF_REPO:-/repo}"   # a scratch copy of /verif whose engines point at a scratch worktree works too
 filter="${1:-}"
-git -C /repo diff --quiet || { echo "/repo working tree is not clean"; exit 2; }
+git -C "$REPO" diff --quiet || { echo "/repo working tree is not clean"; exit 2; }
 for d in seeded/*/; do
   name=$(basename "$d")
   case "$name" in *"$filter"*) ;; *) continue;; esac
   prop=$(python3 -c "import json;m=json.load(open('$d/meta.json'));print(' '.join(m.get('regress',[m['property']])))")
   expect=$(python3 -c "import json;m=json.load(open('$d/meta.json'));print(m.get('expect','VIOLATION'))")
   patch="$PWD/${d}patch.diff"; [ -f "${d}patch_ported_to_current_head.diff" ] && patch="$PWD/${d}patch_ported_to_current_head.diff"
-  if ! git -C /repo apply "$patch" 2>/dev/null; then echo "$name: PATCH DOES NOT APPLY"; continue; fi
+  if ! git -C "$REPO" apply "$patch" 2>/dev/null; then echo "$name: PATCH DOES NOT APPLY"; continue; fi
   res=""
   for p in $prop; do
     out=$(./check $p quick 2>&1); rc=$?
     res="$res $p:rc=$rc"
   done
-  git -C /repo checkout -- .
+  git -C "$REPO" checkout -- .
   echo "$name:$res (expected $expect)"
 done
